@@ -6,3 +6,10 @@ is the listed finding."""
 def _last_step(v):
     tr = v.get('desc', {}).get('trace') or []
     return tr[-1] if tr else {}
+
+
+def dmrg_cross_core_blowup(v):
+    """K1: dmrg_cross / function_interpolate on an exactly low-rank target: a core of the result holds entries ~1e15 times larger than any entry
+    of the target (inverse of a numerically singular P factor)."""
+    ex = v.get('extra') or {}
+    return ex.get('target') in ('tt', 'square') and ex.get('core_blowup', 0) >= 1e10
